@@ -57,25 +57,55 @@ if os.path.exists(rp):
         f = l.split('\t')
         res[f[0]] = f
 sec9 = ["## 9. Seeded changes: which check catches what", "",
- "Eighty realistic code changes (`seeded/<id><A-D>/`: two per property in a first round, two more per property in a second round, whose authors",
- "were also told the mechanisms of the first) were written by fresh sub-agents that were given only the property text and a",
- "scratch git worktree of `/repo` -- nothing from `/verif`. Each change compiles and keeps the repository's suite green; each comes with a demonstration",
+ "One hundred and four realistic code changes (`seeded/<id><A-F>/`) were written by fresh sub-agents that were given only the property text and a",
+ "scratch git worktree of `/repo` -- nothing from `/verif`; later rounds were also told the mechanisms of the earlier ones so that they would look elsewhere.",
+ "Each change compiles and keeps the repository's suite green; each comes with a demonstration",
  "test that passes on the unchanged tree and fails with the patch, which I re-ran myself in a scratch worktree before keeping the change",
  "(`bin/seedverify`; `meta.json.confirmed_by_me`). `bin/seedtest <dir> <tier> <ids>` applies a patch to `/repo` (3-way), runs the named checks and",
  "reverts; `bin/seedmatrix` does it for all of them and writes `seeded/RESULTS.tsv`. No patch was ever committed to `/repo`; all worktrees are removed.",
- "Patches rebased after my own fixes moved the surrounding code: C04A, C05B, C13B, C18A, C18B, C18C.",
+ "Patches rebased after my own fixes or hooks moved the surrounding code: C04A, C05B, C13B, C13F, C18A, C18B, C18C.",
  "",
- "Round 1 (40 changes): all 37 live ones were caught by the quick tier as it stood. Round 2 came in two batches. First batch (24 changes, 12",
- "properties): having read the authors' reports I expected misses for C01C, C01D, C05C and C18C and extended `Router.tla`, `CtxLifecycle.tla` and",
- "`CookieJar.tla` *before* measuring; measured after that, 16 were caught and 8 missed. Second batch (16 changes, the other 8 properties), measured",
- "against the checks exactly as they stood: **4 caught, 12 missed**. So roughly half of the second round slipped through the checks that had",
- "caught all of the first -- the scopes chosen while building had been shaped by the defects found while building. Every miss pointed at a",
- "dimension the specification had left out (a spelling of a prefix, a value class, a second application, a recycled buffer, a failing handler,",
- "concurrency on one middleware instance, how a redirect is issued ...), and the specification -- not just the driver -- was extended until the",
- "change was caught; no check was loosened. Final state: 77 of 77 live changes are caught by the quick tier, 3 are neutralised by my own fixes.",
+ "How the checks did **as they stood** when each batch arrived is the honest measure of how far they generalise:",
+ "",
+ "| batch | changes | caught as the checks stood | missed |",
+ "|---|---|---|---|",
+ "| 1 (A, B; all 20 properties) | 40 (37 live) | 37 | 0 |",
+ "| 2 (C, D; 12 properties) | 24 | 16 (after I had extended three specifications for misses I expected from the authors' reports) | 8 |",
+ "| 3 (C, D; the other 8 properties) | 16 | 4 | 12 |",
+ "| 4 (E, F; the 12 properties of batch 2) | 24 | 8 (`seeded/ROUND4_AS_STOOD.tsv`) | 16 |",
+ "",
+ "So from the second batch on roughly half to two thirds of the fresh changes slipped through checks that had caught everything before -- the scopes",
+ "chosen while building had been shaped by the defects found while building. Every miss pointed at a dimension the specification had left out (a",
+ "spelling of a prefix, how a registration is written, a value class, a second application, a recycled buffer, a failing handler, a request in the middle",
+ "of the program, another component's clock, the collector's gap, call sequences on a holder ...), and the *specification* -- not just the driver -- was",
+ "extended until the change was caught; no check was loosened. Extending it found three more genuine defects on the way (`f401b3b`, `6d15e73`,",
+ "`C18-set-reorders-other-values`). Final state: every live change is caught by the quick tier (table below), 3 are neutralised by my own fixes.",
  "The notes column says what was added.", "",
  "| seed | change (one line) | caught by (quick tier) | rc | violations | notes |", "|---|---|---|---|---|---|"]
 NOTES = {
+ 'C01E': 'missed at first; `Router.tla` got `Vias` (registration through a group / with the prefix in a list)',
+ 'C01F': 'missed at first; `Router.tla` got `NormRespected` over the measured match relation (`EquivTable`)',
+ 'C04E': 'caught as the check stood',
+ 'C04F': 'missed at first; `Mount.tla` got `Serve` (a request in the middle of the program) -- which also found `f401b3b`',
+ 'C05E': 'missed at first; kinds `viewrender` / `localsrender`, probe `rendernil`',
+ 'C05F': 'missed at first; kind and probe `jsonp` behind a middleware that works after the handler returned (concurrent replay)',
+ 'C07E': 'missed at first; conditional requests with hostile `Cache-Control` lists',
+ 'C07F': 'missed at first; helpers `flashlevel`, `flashinput`, length classes',
+ 'C09E': 'caught as the check stood',
+ 'C09F': 'missed at first; offer-only token `t1x`, empty list elements',
+ 'C11E': 'caught as the check stood', 'C11F': 'caught as the check stood',
+ 'C13E': 'caught as the check stood',
+ 'C13F': 'missed at first; `MemoryStore.tla` + hook `adbaf31`: requests served in the collector\'s gap',
+ 'C14E': 'missed at first; history variant without the shared clock (`ownClock`)',
+ 'C14F': 'caught as the check stood',
+ 'C15E': 'caught as the check stood',
+ 'C15F': 'missed at first; `Session.tla` got `ByIDSave`',
+ 'C16E': 'caught as the check stood',
+ 'C16F': 'missed at first; every Origin class now meets every Referer class',
+ 'C17E': 'missed at first; per-execution header names, trace field `only`',
+ 'C17F': 'missed at first; `KeepResponseHeaders` spelled in mixed case',
+ 'C18E': 'missed at first; `ClientKV.tla` -- which also found `6d15e73`',
+ 'C18F': 'missed at first; context deadline next to the timeouts (`Cut`)',
  'C02C': 'caught as the check stood (the stale catch-all value also shows in C05)',
  'C02D': 'missed at first; `PathMatch.tla` got a non-ASCII letter (three bytes, percent-encoded and raw) among the values',
  'C03C': 'missed at first; the pattern pool got a two-byte delimiting literal whose first byte also occurs inside values',
